@@ -937,7 +937,10 @@ def registry_probe_inputs(name, rng, k=40):
     alphabet = D.alphabet_of(entries)
     out = []
     with_children = [e for e in entries if e.children]
-    picks = rng.sample(entries, min(len(entries), k)) + rng.sample(with_children, min(len(with_children), k))
+    if len(entries) <= 4000:
+        picks = list(entries)        # small registry: every entry gets a probe
+    else:
+        picks = rng.sample(entries, min(len(entries), k)) + rng.sample(with_children, min(len(with_children), k))
     for e in picks:
         prefix = ''
         p = e.parent
@@ -946,7 +949,15 @@ def registry_probe_inputs(name, rng, k=40):
             chain.append(p)
             p = p.parent
         for a in reversed(chain):
-            prefix += a.ranges[0][0]
+            lo0, hi0 = a.ranges[0]
+            if lo0 != hi0:
+                # a wildcard range: use a sibling that names a single value (a character that is meaningful at this
+                # position), falling back on the lower end of the range
+                sibs = a.parent.children if a.parent else roots
+                singles = [x.ranges[0][0] for x in sibs if x is not a and x.ranges[0][0] == x.ranges[0][1] and len(x.ranges[0][0]) == len(lo0)]
+                prefix += rng.choice(singles) if singles else lo0
+            else:
+                prefix += lo0
         lo, hi = rng.choice(e.ranges)
         heads = [prefix + lo, prefix + hi]
         if e.children:
